@@ -40,6 +40,8 @@ def _run_variant(args):
     try:
         mod = load(prop)
         ctx = core.run_property(prop, mod.check, tier, repo, overlay)
+        if ctx.problems and not ctx.findings:
+            return ('analysis-error', ctx.problems[0])
         return ('ok', [(f.key(), f.as_dict()) for f in ctx.findings])
     except AnalysisError as e:
         return ('analysis-error', str(e))
@@ -109,7 +111,7 @@ def main(argv=None):
         base_keys = {f.key() for f in ctx.findings}
         controls = None
         selftest = None
-        problems = []
+        problems = list(ctx.problems)
         if not a.no_controls:
             muts = list(getattr(mod, 'MUTANTS', []))
             refs = list(getattr(mod, 'REFACTORS', []))
